@@ -240,6 +240,56 @@ impl Prop for Order {
             }
         }
         ensure_eq!("c03.nanos_since_sign", format!("sign of nanos_since for {}", what), ws, since[8]);
+        // the provided methods of Ord (max, min, clamp) and the comparison of references follow
+        // the same order: each returns the operand that cmp designates
+        {
+            let r = catch(|| {
+                let a = if late { mk_dt_off_late(ia, c.oa) } else { mk_dt_off(ia, c.oa) };
+                let b = if late { mk_dt_off_late(ib, c.ob) } else { mk_dt_off(ib, c.ob) };
+                let (lo, hi) = if ia <= ib { (a.clone(), b.clone()) } else { (b.clone(), a.clone()) };
+                (
+                    rd_dt(&a.clone().max(b.clone())),
+                    rd_dt(&a.clone().min(b.clone())),
+                    rd_dt(&std::cmp::max(b.clone(), a.clone())),
+                    rd_dt(&std::cmp::min(b.clone(), a.clone())),
+                    rd_dt(&a.clone().clamp(lo.clone(), hi.clone())),
+                    rd_dt(&b.clone().clamp(lo.clone(), lo.clone())),
+                    rd_dt(std::cmp::max(&a, &b)),
+                    (&a).cmp(&&b),
+                    [a.clone(), b.clone()].iter().max().map(rd_dt),
+                    { let mut v = vec![a.clone(), b.clone(), a.clone()]; v.sort(); (rd_dt(&v[0]), rd_dt(&v[2])) },
+                )
+            });
+            match r {
+                Err(p) => return fail("c03.order_panic", "max / min / clamp / sort return", p.short()),
+                Ok((mx, mn, mx2, mn2, cl, cl2, mxr, cmpr, itmax, sorted)) => {
+                    let (wmax, wmin) = (ia.max(ib), ia.min(ib));
+                    ensure_eq!(
+                        "c03.ord_provided_methods",
+                        format!("(a.max(b), a.min(b), max(b, a), min(b, a), a.clamp(lo, hi), b.clamp(lo, lo), max(&a, &b), iter().max(), sort) of {}", what),
+                        (wmax, wmin, wmax, wmin, ia, wmin, wmax, Some(wmax), (wmin, wmax)),
+                        (mx, mn, mx2, mn2, cl, cl2, mxr, itmax, sorted)
+                    );
+                    ensure_eq!("c03.cmp", format!("cmp of references of {}", what), want, cmpr);
+                }
+            }
+            let r = catch(|| {
+                let (da, db) = (mk_date(c.a.day), mk_date(c.b.day));
+                let (ta, tb) = (mk_time(c.a.ns as u64), mk_time(c.b.ns as u64));
+                (rd_date(&da.clone().max(db.clone())), rd_date(&da.clone().min(db.clone())), ta.clone().max(tb.clone()).as_nanos(), ta.clone().min(tb.clone()).as_nanos())
+            });
+            match r {
+                Err(p) => return fail("c03.order_panic", "Date / Time max / min return", p.short()),
+                Ok(got) => {
+                    ensure_eq!(
+                        "c03.ord_provided_methods",
+                        format!("(max, min) of Date days {} {} and of Time {} {}", c.a.day, c.b.day, c.a.ns, c.b.ns),
+                        (c.a.day.max(c.b.day), c.a.day.min(c.b.day), c.a.ns.max(c.b.ns) as u64, c.a.ns.min(c.b.ns) as u64),
+                        got
+                    );
+                }
+            }
+        }
         // an operand that is the result of a mutator (clear_until_* in its own zone) is a value like
         // any other: ordered by its instant, equal to a freshly built value of the same instant
         if !edge {
